@@ -301,7 +301,10 @@ RULE = ("(A) rule order: linear and circular records, 2-8 genes with gaps around
         "default fungal multipliers or multipliers k/8 (a quarter of the histories: any float, oracle only), repeated / "
         "permuted selections, rare invalid multipliers; after EVERY call all rulesets so far vs oracle (rule files read as "
         "text) and vs the Coq model on every prefix; detection on a synthetic linear record with canned HMMer hits for 17 gene "
-        "types.  (D) 2-4 Ruleset.from_files / copy_with_replacements calls vs the model.  "
+        "types.  (D) the 3 witness sequences of the repaired finding C07-K2, then sequences of 2-5 Ruleset.from_files / "
+        "copy_with_replacements / Ruleset(...) calls (sub-selections by names, kept or new multipliers k/8, the bare constructor "
+        "over the rule objects of an earlier ruleset): every ruleset, read after the last call, vs the oracle (written distance "
+        "times its multipliers) and vs the Coq model.  "
         "Non-trivial = the base run reports at least one protocluster / the history has a non-unit fungal multiplier; "
         "distinct by (record, rotation | permutation | history prefix)")
 
@@ -856,24 +859,45 @@ def replay_history(info, doc):
 
 # ------------------------------------------------------------------ (D) the Ruleset constructors used directly
 
+# the witnesses of the repaired finding C07-K2 (ruleset_copy_rescales_shared_rules) as constructor sequences: run first
+# on every run.  ("from_files", strictness, mults) | ("copy", j, names, keep, mults) | ("init", j, names, mults)
+API_CORPUS = [
+    # a copy of the fungal ruleset restricted to terpene changed the ORIGINAL's terpene neighbourhood 15000 -> 22500
+    [("from_files", "relaxed", (1.0, 1.0)), ("copy", 0, [], False, (1.0, 1.5)), ("copy", 1, ["terpene"], True, (1.0, 1.0))],
+    # Ruleset.from_files(multipliers=(1.0, 1.5)) gave terpene 22500 at once; a plain copy scaled again
+    [("from_files", "relaxed", (1.0, 1.5)), ("copy", 0, [], True, (1.0, 1.0)), ("copy", 1, ["terpene", "NRPS"], False, (2.0, 0.5))],
+    # a second Ruleset built directly over the rule objects of the first changed what the first detects with
+    [("from_files", "strict", (1.5, 1.5)), ("init", 0, [], (2.0, 2.0)), ("init", 0, ["terpene"], (1.5, 1.5)),
+     ("copy", 1, [], True, (1.0, 1.0))],
+]
+
+
 def gen_api_ops(rng, env):
-    """ Ruleset.from_files(multipliers=...) and copies of earlier rulesets with other rules / multipliers """
+    """ Ruleset.from_files(multipliers=...), copies of earlier rulesets with other rules / multipliers, and Ruleset(...)
+        built directly over the rule objects an earlier ruleset detects with """
     def mults():
         return (rng.choice(DYADIC), rng.choice(DYADIC)) if rng.random() < 0.8 else (1.0, 1.0)
+
+    def names():
+        if rng.random() < 0.7:
+            return list(dict.fromkeys(rng.sample(env.firing, rng.choice([1, 2, 4])) + rng.sample(env.names, rng.choice([0, 2]))))
+        return []
     ops = [("from_files", rng.choice(STRICTNESS), mults())]
-    for _ in range(rng.choice([1, 2, 3])):
-        if rng.random() < 0.75:
-            names = []
-            if rng.random() < 0.7:
-                names = list(dict.fromkeys(rng.sample(env.firing, rng.choice([1, 2, 4])) + rng.sample(env.names, rng.choice([0, 2]))))
-            ops.append(("copy", rng.randrange(len(ops)), names, rng.random() < 0.4, mults()))
+    for _ in range(rng.choice([1, 2, 3, 4])):
+        kind = rng.random()
+        if kind < 0.55:
+            ops.append(("copy", rng.randrange(len(ops)), names(), rng.random() < 0.4, mults()))
+        elif kind < 0.8:
+            ops.append(("init", rng.randrange(len(ops)), names(), mults()))
         else:
             ops.append(("from_files", rng.choice(STRICTNESS), mults()))
     return ops
 
 
 def run_api_ops(env, ops):
-    """ -> the rulesets made, and for each what it should hold: (strictness, names or None, multipliers) """
+    """ -> the rulesets made, and for each what it should hold: (strictness, names or None, [multipliers applied in turn])
+        - one pair of multipliers (its own) for from_files and everything copied from it; the bare constructor over the
+        rule objects of another ruleset scales what that ruleset holds, so its own multipliers come after the other's """
     from antismash.common.hmm_rule_parser.cluster_prediction import Ruleset
     from antismash.common.hmm_rule_parser.structures import Multipliers
     hd = env.hd
@@ -884,50 +908,77 @@ def run_api_ops(env, ops):
                                            hd._get_rule_files_for_strictness(op[1]),  # pylint: disable=protected-access
                                            hd.CATEGORIES, hd.EQUIVALENCE_GROUPS, "rule-based-clusters",
                                            dynamic_profiles=hd.DYNAMIC_PROFILES, multipliers=Multipliers(*op[2])))
-            wanted.append((op[1], None, op[2]))
-        else:
-            _, j, names, keep, mults = op
-            source = made[j]
-            kwargs = {"rules": [r for r in source.rules if not names or r.name in names]}
+            wanted.append((op[1], None, [op[2]]))
+            continue
+        j, names = op[1], op[2]
+        source = made[j]
+        rules = [r for r in source.rules if not names or r.name in names]
+        strictness, earlier, chain = wanted[j]
+        selected = earlier if not names else [n for n in (earlier if earlier is not None else env.names) if n in names]
+        if op[0] == "copy":
+            _, _, _, keep, mults = op
+            kwargs = {"rules": rules}
             if not keep:
                 kwargs["multipliers"] = Multipliers(*mults)
             made.append(source.copy_with_replacements(**kwargs))
-            strictness, earlier, source_mults = wanted[j]
-            selected = earlier if not names else [n for n in (earlier if earlier is not None else env.names) if n in names]
-            wanted.append((strictness, selected, source_mults if keep else mults))
+            wanted.append((strictness, selected, chain[:-1] + [chain[-1] if keep else mults]))
+        else:
+            made.append(Ruleset(tuple(rules), source.hmm_profiles, source.database_file, source.valid_categories, source.tool,
+                                multipliers=Multipliers(*op[3]), dynamic_profiles=source.dynamic_profiles,
+                                equivalence_groups=source.get_equivalence_groups()))
+            wanted.append((strictness, selected, chain + [op[3]]))
     return made, wanted
 
 
+def api_want(env, strictness, names, chain):
+    """ the independent oracle: the selected rules of the files, the written distances scaled by each pair in turn """
+    out = []
+    for name, cat, cutoff, nb in env.base_rules(strictness):
+        if names is not None and name not in names:
+            continue
+        for mults in chain:
+            cutoff, nb = int(cutoff * mults[0]), int(nb * mults[1])
+        out.append((name, cat, cutoff, nb))
+    return out
+
+
 def ruleset_constructors(chk, rng, quick):
-    """ family (D): the model of from_files / copy_with_replacements against the real constructors; what they return is
-        compared with written distance * multipliers too, and a difference is attributed to the recorded class
-        ruleset_copy_rescales_shared_rules only while that class is listed AND the faithful model predicts it """
+    """ family (D): the model of Ruleset(...) / from_files / copy_with_replacements against the real constructors, and what
+        every ruleset of a sequence holds AFTER the last call against written distance * its multipliers (independent
+        oracle; C07_constructors_history_independent).  Nothing is suppressed: finding C07-K2 is repaired, its witnesses
+        are the first sequences (API_CORPUS) """
     env = RulesetEnv()
-    listed = any(f["status"] == "known" and f["class"] == "ruleset_copy_rescales_shared_rules"
-                 for f in common.load_known_findings("C07"))
     flat_files = env.flat_files()
     cases, impl_outs, meta, off_spec = [], [], [], []
-    for _ in range(8 if quick else 80):
-        ops = gen_api_ops(rng, env)
+    corpus = list(API_CORPUS)
+    for _ in range(len(API_CORPUS) + (12 if quick else 120)):
+        if corpus:
+            ops = corpus.pop(0)
+            chk.count("constructor_corpus_sequences")
+        else:
+            ops = gen_api_ops(rng, env)
         try:
             made, wanted = run_api_ops(env, ops)
         except Exception as exc:  # pylint: disable=broad-except
             chk.violation("broken-correspondence", f"a Ruleset constructor raised {type(exc).__name__}: {exc}",
-                          {"theorem_or_correspondence": "Ruleset.from_files / copy_with_replacements", "input": {"ops": ops}})
+                          {"theorem_or_correspondence": "Ruleset / Ruleset.from_files / copy_with_replacements", "input": {"ops": ops}})
             continue
         flat = [PROP, 4] + flat_files + [len(ops)]
         for op in ops:
             if op[0] == "from_files":
                 flat += [0, STRICTNESS.index(op[1])]
                 mults = op[2]
-            else:
+            elif op[0] == "copy":
                 flat += [1, op[1], len(op[2])] + [env.name_id[n] for n in op[2]] + [1 if op[3] else 0]
                 mults = op[4]
+            else:
+                flat += [2, op[1], len(op[2])] + [env.name_id[n] for n in op[2]]
+                mults = op[3]
             for value in mults:
                 flat += list(float(value).as_integer_ratio())
         out = [len(made)]
         wrong = None
-        for i, (ruleset, (strictness, names, mults)) in enumerate(zip(made, wanted)):
+        for i, (ruleset, (strictness, names, chain)) in enumerate(zip(made, wanted)):
             out.append(0)
             for value in (ruleset.multipliers.cutoff, ruleset.multipliers.neighbourhood):
                 out += list(float(value).as_integer_ratio())
@@ -935,8 +986,7 @@ def ruleset_constructors(chk, rng, quick):
             out.append(len(rules))
             for name, cat, cutoff, nb in rules:
                 out += [env.name_id[name], env.cat_id[cat], cutoff, nb]
-            want = [(n, c, int(d * mults[0]), int(b * mults[1])) for n, c, d, b in env.base_rules(strictness)
-                    if names is None or n in names]
+            want = api_want(env, strictness, names, chain)
             if rules != want and wrong is None:
                 wrong = (i, [(a, b) for a, b in zip(rules, want) if a != b][:3])
         cases.append(flat)
@@ -945,44 +995,60 @@ def ruleset_constructors(chk, rng, quick):
         off_spec.append(wrong)
         chk.note_case(flat, True)
         chk.count("constructor_sequences")
+        if any(op[0] == "init" for op in ops):
+            chk.count("constructor_sequences_with_bare_constructor")
     model_outs = common.run_driver(cases)
     chk.crosscheck_vm(cases, model_outs, k=3 if quick else 12)
     reported = False
     for flat, model, got, info, wrong in zip(cases, model_outs, impl_outs, meta, off_spec):
-        if model != got:
-            if not reported:
-                chk.violation("counterexample" if wrong else "broken-correspondence",
-                              "Ruleset.from_files / copy_with_replacements and their Coq model differ",
-                              {"theorem_or_correspondence": "Model.from_files, Model.copy_with_replacements / Ruleset",
-                               "input": info, "implementation": got[:40], "model": model[:40],
-                               "first_differences_from_written_distance_times_multiplier": wrong})
-                reported = True
-        elif wrong:
-            if listed:
-                chk.count("known_class_ruleset_copy_rescales_shared_rules")
-            elif not reported:
-                chk.violation("counterexample", f"ruleset {wrong[0]} of a sequence of Ruleset constructor calls does not hold the "
-                              "written distances times its multipliers",
-                              {"theorem_or_correspondence": "C07_ruleset_copy_history_refuted, C07_from_files_multipliers_refuted / "
-                                                            "Ruleset.from_files, copy_with_replacements",
-                               "input": info, "first_differences_(have, want)": wrong[1]})
+        if reported:
+            break
+        if wrong:
+            chk.violation("counterexample", f"ruleset {wrong[0]} of a sequence of Ruleset constructor calls does not hold, after "
+                          "the last call, the distances it was given times its own multipliers (class "
+                          "ruleset_copy_rescales_shared_rules, repaired as C07-K2: the distances depend on the history of "
+                          "constructions again)",
+                          {"theorem_or_correspondence": "C07_constructors_history_independent, C07_ruleset_copy_history_independent, "
+                                                        "C07_from_files_multipliers_once / Ruleset, Ruleset.from_files, "
+                                                        "copy_with_replacements",
+                           "input": info, "first_differences_(have, want)": wrong[1], "implementation": got[:40],
+                           "model": model[:40], "flat": flat})
+            reported = True
+        elif model != got:
+            chk.violation("broken-correspondence", "Ruleset / Ruleset.from_files / copy_with_replacements and their Coq model differ",
+                          {"theorem_or_correspondence": "Model.ruleset_init, Model.from_files, Model.copy_with_replacements / Ruleset",
+                           "input": info, "implementation": got[:40], "model": model[:40], "flat": flat})
+            reported = True
+    # the stored witness of the repaired finding, step by step (regression)
+    for finding in common.load_known_findings("C07"):
+        if finding.get("class") == "ruleset_copy_rescales_shared_rules" and not reported:
+            state = ruleset_copy_witness(finding["witness"])
+            chk.extra["ruleset_copy_witness"] = state
+            if not state.get("before") == state.get("after") == state.get("in_copy") == finding["witness"]["before_copy"]:
+                chk.violation("counterexample", "the witness of the repaired finding C07-K2 fails again: copying the fungal "
+                              f"ruleset restricted to {finding['witness']['rule']} changed the distances of the ruleset copied from "
+                              f"(or get_ruleset no longer gives written distance * multiplier): {state}",
+                              {"theorem_or_correspondence": "C07_ruleset_copy_history_independent / get_ruleset, copy_with_replacements",
+                               "input": {"ops": API_CORPUS[0]}, "witness": finding["witness"], "observed": state})
                 reported = True
 
 
-def ruleset_copy_witness_reproduces(witness):
-    """ the witness of C07-K2: a copy of the fungal ruleset changes the distances of the ruleset it was copied from """
+def ruleset_copy_witness(witness):
+    """ the witness of C07-K2: the distances of the fungal ruleset's rule before and after a copy is made of it, and the
+        distances in the copy """
     env = RulesetEnv()
     env.hd._RULESETS.clear()  # pylint: disable=protected-access
     try:
         request = {"strictness": witness["strictness"], "names": [], "cats": [], "taxon": witness["taxon"], "mults": None}
         ruleset = env.hd.get_ruleset(env.options(request))
         rule = ruleset.get_rule_by_name(witness["rule"])
-        before = (rule.cutoff, rule.neighbourhood)
-        ruleset.copy_with_replacements(rules=[rule])
-        after = (ruleset.get_rule_by_name(witness["rule"]).cutoff, ruleset.get_rule_by_name(witness["rule"]).neighbourhood)
-        return list(before) == witness["before_copy"] and list(after) == witness["after_copy"]
-    except Exception:  # pylint: disable=broad-except
-        return False
+        before = [rule.cutoff, rule.neighbourhood]
+        copied = ruleset.copy_with_replacements(rules=[rule])
+        after = [ruleset.get_rule_by_name(witness["rule"]).cutoff, ruleset.get_rule_by_name(witness["rule"]).neighbourhood]
+        in_copy = [copied.get_rule_by_name(witness["rule"]).cutoff, copied.get_rule_by_name(witness["rule"]).neighbourhood]
+        return {"before": before, "after": after, "in_copy": in_copy}
+    except Exception as exc:  # pylint: disable=broad-except
+        return {"error": f"{type(exc).__name__}: {exc}"}
     finally:
         env.hd._RULESETS.clear()  # pylint: disable=protected-access
 
@@ -1162,9 +1228,6 @@ def known_findings(chk):
         if finding["status"] != "known":
             continue
         w = finding["witness"]
-        if finding["class"] == "ruleset_copy_rescales_shared_rules":
-            if ruleset_copy_witness_reproduces(w):
-                chk.known(finding["what_fails"])
         if finding["class"] == "rotation_superior_partial_overlap":
             genes = [tuple(g) for g in w["genes"]]
             hits = {k: set(v) for k, v in w["hits"].items()}
@@ -1221,9 +1284,8 @@ def replay(chk, path):
     if "ops" in info:
         env = RulesetEnv()
         made, wanted = run_api_ops(env, [tuple(op) for op in info["ops"]])
-        for i, (ruleset, (strictness, names, mults)) in enumerate(zip(made, wanted)):
-            want = [(n, c, int(d * mults[0]), int(b * mults[1])) for n, c, d, b in env.base_rules(strictness)
-                    if names is None or n in names]
+        for i, (ruleset, (strictness, names, chain)) in enumerate(zip(made, wanted)):
+            want = api_want(env, strictness, names, chain)
             diff = [(a, b) for a, b in zip(dump_ruleset(ruleset), want) if a != b][:4]
             print(f"ruleset {i} ({info['ops'][i]}):", "holds written distance * multiplier" if not diff else
                   f"(have, want) {diff}")
